@@ -1,5 +1,6 @@
 import Poulpy.Lemmas.Lut
 import Poulpy.Lemmas.LutBlind
+import Poulpy.Lemmas.LutCol
 /-
 C14 — blind rotation evaluates the lookup table at the encrypted index.
 
@@ -601,5 +602,102 @@ example : modSwitch2n 64 12 [[1000, -2048, 37]] false = .ok ([1000, -2048, 37].m
 
 /-- d = 6, digits (1000 | −2048, 37), key (1, 1): idx = 16 − 32 + 1 = −15, Φ = −1011, E = 51 -/
 example : (msRound 6 1000 + blkPhase (List.zip ([-2048, 37].map (msRound 6)) [1, 1])) * 2 ^ 6 = (1000 + (-2048 + 37)) + 51 := by decide
+
+theorem getD_map_col (limbs : List (List Int)) (c i : Nat) :
+    (limbs.map fun row => row.getD c 0).getD i 0 = (limbs.getD i []).getD c 0 := by
+  simp only [List.getD_eq_getElem?_getD, List.getElem?_map]
+  cases limbs[i]? <;> simp
+
+set_option maxHeartbeats 400000 in
+/-- **mod_switch_2n ∘ LWE phase, multi-limb branch (`1 ≤ base2k ≤ log2(n)`): the exact error of the rotation index.**
+For a whole ciphertext (`nl + 1` coefficients per limb, balanced digits, `size = ⌈m/b⌉` limbs read), with
+`H c = Σ_{i<size} ±x_{i,c}·2^{b(size-1-i)}` the Horner value of coefficient `c` (`mod_switch_2n_low`, lifted to every
+coefficient by `Lut.modSwitch2n_col`):
+* `b ∣ m`: the switched values are the `H c` themselves — the index is the `size`-limb phase exactly, no rounding;
+* otherwise, with `d = b − m mod b`: every value is `⌊(H c + 2^{d-1})/2^d⌋` and for any key
+  `idx·2^d = Φ_H + E`, `Φ_H = H 0 + Σ H_i s_i`, `E = (2^{d-1} − r_0) + Σ (2^{d-1} − r_i) s_i`, `|E| ≤ (1 + hw(s))·2^{d-1}` for a
+  binary key — the same drift law as `index_error`, with the Horner values in place of the top-limb digits. -/
+theorem index_error_low (m b : Nat) (limbs : List (List Int)) (left : Bool) (nl : Nat) (sk : List Int)
+    (hm : 1 ≤ m) (hb1 : 1 ≤ b) (hbm : b ≤ m) (hrows : ∀ row ∈ limbs, row.length = nl + 1)
+    (hsz : (m + b - 1) / b ≤ limbs.length)
+    (hx : ∀ row ∈ limbs, ∀ x ∈ row, -(2:Int) ^ (b - 1) ≤ x ∧ x ≤ 2 ^ (b - 1))
+    (hov : b * ((m + b - 1) / b) ≤ 62) (hbin : ∀ s ∈ sk, s = 0 ∨ s = 1) :
+    let H : Nat → Int := fun c =>
+      hv b (fun i => (if left then -1 else 1) * (limbs.getD i []).getD c 0) ((m + b - 1) / b - 1)
+    let d := b - m % b
+    ∃ ys, modSwitch2n (2 ^ m) b limbs left = .ok ys ∧ ys.length = nl + 1 ∧
+      (m % b = 0 → ys = (List.range (nl + 1)).map H) ∧
+      (m % b ≠ 0 →
+        ys = (List.range (nl + 1)).map (fun c => msRound d (H c)) ∧
+        (ys.getD 0 0 + blkPhase (List.zip ys.tail sk)) * 2 ^ d =
+          (H 0 + blkPhase (List.zip ((List.range nl).map fun c => H (c + 1)) sk)) +
+            ((2 ^ (d - 1) - msRem d (H 0)) +
+              blkPhase (List.zip (((List.range nl).map fun c => H (c + 1)).map fun x => 2 ^ (d - 1) - msRem d x) sk)) ∧
+        ((2 ^ (d - 1) - msRem d (H 0)) +
+              blkPhase (List.zip (((List.range nl).map fun c => H (c + 1)).map fun x => 2 ^ (d - 1) - msRem d x) sk)).natAbs
+          ≤ (1 + sk.sum.natAbs) * 2 ^ (d - 1)) := by
+  intro H d
+  -- one coefficient
+  have hcol : ∀ c, c < nl + 1 → modSwitch2n (2 ^ m) b (colOf c limbs) left =
+      .ok [if m % b = 0 then H c else (H c + 2 ^ (d - 1)) / 2 ^ d] := by
+    intro c _
+    rw [colOf_eq]
+    have := mod_switch_2n_low m b (limbs.map fun row => row.getD c 0) left hm hb1 hbm (by simpa using hsz)
+      (by
+        intro x hxm
+        obtain ⟨row, hrow, rfl⟩ := List.mem_map.1 hxm
+        have hlen := hrows row hrow
+        by_cases hc : c < row.length
+        · rw [getD_of_lt _ _ _ hc]; exact hx row hrow _ (List.getElem_mem hc)
+        · have h0 : row.getD c 0 = 0 := by simp [List.getD_eq_getElem?_getD, List.getElem?_eq_none (by omega : row.length ≤ c)]
+          rw [h0]
+          have : (0:Int) < 2 ^ (b - 1) := by positivity
+          constructor <;> omega) hov
+    rw [this]
+    simp only [getD_map_col]
+    rfl
+  -- the whole ciphertext
+  have h0 := modSwitch2n_col (2 ^ m) b limbs left (nl + 1) 0 (by omega) hrows
+  cases hms : modSwitch2n (2 ^ m) b limbs left with
+  | panic p => rw [hms] at h0; simp only at h0; rw [hcol 0 (by omega)] at h0; cases h0
+  | err e => rw [hms] at h0; simp only at h0; rw [hcol 0 (by omega)] at h0; cases h0
+  | ok ys =>
+    rw [hms] at h0
+    have hlen : ys.length = nl + 1 := h0.1
+    have hval : ∀ c, c < nl + 1 → ys.getD c 0 = if m % b = 0 then H c else (H c + 2 ^ (d - 1)) / 2 ^ d := by
+      intro c hc
+      have h1 := modSwitch2n_col (2 ^ m) b limbs left (nl + 1) c hc hrows
+      rw [hms] at h1
+      have h2 := h1.2
+      rw [hcol c hc] at h2
+      simp only [Outcome.ok.injEq, List.cons.injEq, and_true] at h2
+      exact h2.symm
+    have hys : ys = (List.range (nl + 1)).map fun c => if m % b = 0 then H c else (H c + 2 ^ (d - 1)) / 2 ^ d := by
+      apply List.ext_getElem (by simp [hlen])
+      intro i h1 h2
+      rw [← getD_of_lt ys 0 i h1, hval i (by omega)]
+      simp
+    refine ⟨ys, rfl, hlen, ?_, ?_⟩
+    · intro hmb; rw [hys]; simp [hmb]
+    · intro hmb
+      have hys' : ys = (List.range (nl + 1)).map (fun c => msRound d (H c)) := by
+        rw [hys]; simp [hmb, msRound]
+      have hd1 : 1 ≤ d := by
+        have : m % b < b := Nat.mod_lt _ (by omega)
+        omega
+      have hie := index_error d hd1 (H 0) ((List.range nl).map fun c => H (c + 1)) sk hbin
+      refine ⟨hys', ?_, hie.2⟩
+      have hhead : ys.getD 0 0 = msRound d (H 0) := by rw [hys']; simp
+      have htail : ys.tail = ((List.range nl).map fun c => H (c + 1)).map (msRound d) := by
+        rw [hys', List.range_succ_eq_map]
+        simp [List.map_map, Function.comp]
+      rw [hhead, htail]
+      exact hie.1
+
+/-- `n = 32`, `base2k = 2`: three limbs, `d = 1`; `H = (23, −28)`, switched `(12, −14)`; key `(1)`: `idx = −2`,
+`Φ_H = −5`, `E = 1` -/
+example : modSwitch2n 32 2 [[1, -2], [2, 1], [-1, 0]] false = .ok [12, -14] := by rfl
+example : hv 2 (fun i => [1, 2, -1].getD i 0) 2 = 23 ∧ hv 2 (fun i => [-2, 1, 0].getD i 0) 2 = -28 ∧
+    (12 + -14 * 1) * 2 ^ 1 = (23 + -28 * 1) + (1 : Int) := by decide
 
 end C14
